@@ -295,6 +295,8 @@ impl From<OnionV3AddressErrorStub> for Error { #[verifier::external_body] fn fro
 // A-hash: Identifier's derived Hash/Eq obey the HashMap key model
 #[verifier::external_body]
 pub proof fn axiom_identifier_key_model() ensures vstd::std_specs::hash::obeys_key_model::<Identifier>() { }
+#[verifier::external_body]
+pub proof fn axiom_commitment_key_model() ensures vstd::std_specs::hash::obeys_key_model::<Commitment>() { }
 // L8: `.clone()` on a tuple value
 #[verifier::external_body]
 pub fn vf_clone<T>(v: &T) -> (r: T) ensures r == *v { unimplemented!() }
@@ -352,8 +354,15 @@ impl Eq for Commitment {}
 // L3: iterating a HashMap by reference, as a vector of entry references (iteration order unspecified)
 pub trait VfHashMapExt<K, V> { fn vf_entries<'a>(&'a self) -> Vec<(&'a K, &'a V)>; }
 impl<K, V> VfHashMapExt<K, V> for HashMap<K, V> {
+    // every entry exactly once, in an unspecified order
     #[verifier::external_body]
-    fn vf_entries<'a>(&'a self) -> (r: Vec<(&'a K, &'a V)>) { unimplemented!() }
+    fn vf_entries<'a>(&'a self) -> (r: Vec<(&'a K, &'a V)>)
+        ensures vstd::std_specs::hash::obeys_key_model::<K>() ==> {
+            &&& forall|i: int| 0 <= i < r@.len() ==> self@.dom().contains(*(#[trigger] r@[i]).0) && self@[*r@[i].0] == *r@[i].1
+            &&& forall|i: int, j: int| 0 <= i < j < r@.len() ==> *(#[trigger] r@[i]).0 != *(#[trigger] r@[j]).0
+            &&& forall|k: K| #[trigger] self@.dom().contains(k) ==> exists|i: int| 0 <= i < r@.len() && *(#[trigger] r@[i]).0 == k
+        }
+    { unimplemented!() }
 }
 // `confirmation_ts.clone().and_then(|t| (Utc::now() - t).to_std().ok())` — elapsed time, display only
 #[verifier::external_body]
